@@ -40,7 +40,7 @@ class P(Prop):
             ">=2 statements")
     assumptions = ["lark's lexer/LALR engine are modelled by CG/Verilog.lean (differential-tested here)",
                    "set-iteration order inside the patched run is the model's ordBy(seed) family"]
-    budget = {"quick": (150, 150), "thorough": (3000, 3000)}
+    budget = {"quick": (150, 300), "thorough": (3000, 3000)}
 
     def gen_case(self):
         rng = self.rng
@@ -48,7 +48,7 @@ class P(Prop):
         if plant and rng.random() < 0.2:
             m = vgen.Module(rng, adversarial=0.6, plant=plant)
         else:
-            m = vgen.Module(rng, blackboxes=rng.choice([vgen.FLOPS, vgen.FLOPS_ALT]) if rng.random() < 0.4 else (),
+            m = vgen.Module(rng, blackboxes=rng.choice([vgen.FLOPS, vgen.FLOPS_ALT]) if rng.random() < 0.55 else (),
                             adversarial=rng.choice([0, 0, 0.25]))
         text = m.render(comments=True)
         mut = None
